@@ -1399,7 +1399,8 @@ class FuncAnalysis:
                      "np.append", "np.concatenate", "np.hstack", "np.vstack", "np.stack", "np.array", "np.tile",
                      "np.repeat", "np.zeros_like", "np.ones_like", "np.full_like", "np.empty_like", "np.copy",
                      "np.sort", "np.diff", "np.gradient", "np.cumsum", "np.interp", "np.meshgrid", "np.isnan",
-                     "np.genfromtxt", "np.loadtxt", "np.fromfile", "np.isin", "np.digitize"):
+                     "np.genfromtxt", "np.loadtxt", "np.fromfile", "np.isin", "np.digitize",
+                     "griddata", "scipy.interpolate.griddata", "interpolate.griddata", "curve_fit", "scipy.optimize.curve_fit"):
             return fresh("ND")
         if short in ("copy.deepcopy",):
             return fresh(args[0].kind if args else "TOP")
